@@ -87,6 +87,16 @@ def write_dir(members, root):
             f.write(data)
 
 
+def dir_entries(members):
+    """Directories of the tree a member list is laid out as (names without trailing slash)."""
+    dirs = set()
+    for n, _ in members:
+        segs = n.split("/")
+        for i in range(1, len(segs)):
+            dirs.add("/".join(segs[:i]))
+    return sorted(dirs)
+
+
 def dir_safe(members):
     """Can this member list be laid out as a directory tree without a file/directory clash?"""
     names = [n for n, _ in members]
@@ -266,11 +276,11 @@ def parse_package(cur):
             for _ in range(cur.n()):
                 rid, rtype, target, mode = cur.s(), cur.s(), cur.s(), cur.raw()
                 rl.append((rid, rtype, target, mode))
-            out.append((name, ("r", rl)))
+            out.append((name, ("r", rl, tok)))
         elif kind == "c":
             ds = [(cur.s(), cur.s()) for _ in range(cur.n())]
             os_ = [(cur.s(), cur.s()) for _ in range(cur.n())]
-            out.append((name, ("c", ds, os_)))
+            out.append((name, ("c", ds, os_, tok)))
         else:
             raise ValueError("bad member kind %r" % kind)
     return out
@@ -306,6 +316,27 @@ def parse_pres(line):
     else:
         renamed = (r,)
     return ("ok", main, graph, renamed)
+
+
+def parse_reg(line):
+    return parse_package(Cursor(line.split("|")))
+
+
+def members_from_model(pkg, pay):
+    """Real bytes for a package printed by the model: token 0 marks an item the model wrote."""
+    out = []
+    for name, m in pkg:
+        tok = m[1] if m[0] == "b" else m[-1]
+        if tok > 0:
+            data = pay.get(tok)
+        elif m[0] == "r":
+            data = rels_xml([(a, b, c, {"0": "Internal", "1": "External"}.get(d, "Bogus")) for a, b, c, d in m[1]])
+        elif m[0] == "c":
+            data = ct_xml(m[1], m[2])
+        else:
+            data = b""
+        out.append((name[1:], data))
+    return out
 
 
 # ----------------------------------------------------------------------------- implementation
@@ -818,9 +849,13 @@ def list_faults(members):
             if rl is None:
                 continue
             out.append(("del-rels", name))
+            first = True
             for i, r in enumerate(rl):
                 if r[3] != "External":
                     out.append(("dangling", name, i))
+                    if first:
+                        out.append(("void-target", name, i))     # a relationship removed by emptying its Target
+                        first = False
     ct = decode_ct(d.get(CT_NAME, b""))
     main = main_part_name(members)
     if ct is not None:
@@ -893,6 +928,12 @@ def apply_fault(members, fault):
         rid, rtype, target, mode = rl[i]
         rl[i] = (rid, rtype, posixpath.join(posixpath.dirname(target), "NULL"), mode)
         return _replace(members, name, rels_xml(rl))
+    if kind == "void-target":
+        _k, name, i = fault
+        rl = decode_rels(d[name])
+        rid, rtype, _target, mode = rl[i]
+        rl[i] = (rid, rtype, "", mode)
+        return _replace(members, name, rels_xml(rl))
     if kind == "del-rels" or kind == "del-member":
         return [(n, b) for n, b in members if n != fault[1]]
     if kind in ("case-default", "case-override", "unknown-ct", "wrong-main"):
@@ -935,8 +976,10 @@ def apply_fault(members, fault):
         rl = decode_rels(d["_rels/.rels"])
         gone = {resolve_ref("/", r[2]) for r in rl if r[1] == RT_CORE and r[3] != "External"}
         out = _replace(members, "_rels/.rels", rels_xml([r for r in rl if r[1] != RT_CORE]))
-        ds, os_ = decode_ct(d[CT_NAME])
-        out = _replace(out, CT_NAME, ct_xml(ds, [(pn, t) for pn, t in os_ if pn.lower() not in {g.lower() for g in gone}]))
+        ct = decode_ct(d.get(CT_NAME, b""))
+        if ct is not None:
+            ds, os_ = ct
+            out = _replace(out, CT_NAME, ct_xml(ds, [(pn, t) for pn, t in os_ if pn.lower() not in {g.lower() for g in gone}]))
         return [(n, b) for n, b in out if "/" + n not in gone]
     raise ValueError("unknown fault %r" % (fault,))
 
